@@ -141,7 +141,7 @@ def run(R, tier, rng):
     lines = []; meta = []
     for ops, final, nvars in hist:
         base = ops + final
-        variants = []
+        variants = [(2, ("read", 1, "str"))] if ops is W else []
         for i in range(1, len(ops) + 1):
             avail = sum(1 for o in ops[:i] if o[0] in ("build", "select"))
             if not avail: continue
